@@ -12,6 +12,7 @@ import Lomond.Model.Threads
 import Lomond.Model.Inflate
 import Lomond.Model.Connect
 import Lomond.Model.Handshake
+import Lomond.Model.Attempt
 import Lomond.Model.Proxy
 import Lomond.Model.Transport
 import Lomond.Model.Reconnect
@@ -150,7 +151,9 @@ def runCore (line : String) : String :=
                    else if conn = "selfail" then .selFail false
                    else if conn = "selfailproxy" then .selFail true else .otherFail
         request := hexD (kv ct "req" "")
-        challenge := (hexD (kv ct "chal" ""))
+        -- not an input: the accept value for the key found in the request (`Handshake.cfgOfRequest`);
+        -- a `chal=` token of an old line is ignored
+        challenge := Handshake.challengeOfRequest (hexD (kv ct "req" ""))
         writeFails := fun k => wfl.contains k
         maskKey := testKey
         inflate := if kv ct "zsafe" "0" = "1" then Inflate.inflateAllSafe else Inflate.inflateAll }
@@ -298,7 +301,7 @@ def runXport (line : String) : String :=
        ":now=" ++ toString s.now])
   | _ => "bad-op"
 
-/-! ### C10: `http ...` operations (response parsing, `on_response`, `build_request`, base64) -/
+/-! ### C10: `http ...` operations (response parsing, `on_response`, `build_request`, base64, SHA-1, accept value) -/
 
 def showDeflate : Option Http.DeflateCfg → String
   | none => "-"
@@ -319,9 +322,10 @@ def hexList (s : String) : List Bytes :=
 
 def runHttp (args : List String) : String :=
   match args with
-  | ["resp", strict, chal, hx] =>
+  -- `resp <strict> <key> <block>`: `key` is `state.key` (the base64 text); the expected accept value is computed
+  | ["resp", strict, key, hx] =>
     let r := Http.parseResponse (hexD hx)
-    let out := match Http.onResponse (strict = "1") (hexD chal) r with
+    let out := match Http.onResponse (strict = "1") (Handshake.acceptFor (hexD key)) r with
       | .error m => "err:" ++ showStr m
       | .ok a => "ok:" ++ (match a.protocol with | none => "-" | some p => "p" ++ showStr p) ++ ":" ++ showDeflate a.deflate
     showResponse r ++ " res=" ++ out
@@ -340,6 +344,9 @@ def runHttp (args : List String) : String :=
     hexOfBytes req ++ " spec:" ++ showSpecRequest (Spec.parseRequest req)
   | ["parsereq", hx] => showSpecRequest (Spec.parseRequest (hexD hx))
   | ["b64", hx] => hexOfBytes (Handshake.b64encode (hexD hx))
+  | ["sha1", hx] => hexOfBytes (Sha1.sha1 (hexD hx))
+  | ["accept", hx] => hexOfBytes (Handshake.acceptFor (hexD hx))
+  | ["keyof", hx] => hexOfBytes (Handshake.keyOfRequest (hexD hx))
   | ["b64d", hx] =>
     match Handshake.b64decode (hexD hx) with
     | none => "error"
